@@ -606,7 +606,18 @@ func (g *Gen) scenario(p *Profile) {
 			if tip > 0 && e.stateTip() == tip {
 				c := w.chain(tip)
 				tgt := c[len(c)-1-(1+g.r.Intn(min(3, len(c)-1)))]
-				if g.r.Chance(1, 2) {
+				// Miner.truncateForMiner re-admits the pending transactions in a goroutine that races with its ledger cut: a
+				// pending spender of an output frozen above the target's height is kept or dropped depending on that schedule.
+				// Such a history takes the walk-then-truncate form, whose schedule is fixed (re-admission first).
+				racy := false
+				for _, ti := range e.pool {
+					for _, in := range w.Txs[ti].Tx.TxInputs {
+						if in.FrozenHeight > w.Blocks[tgt].Height {
+							racy = true
+						}
+					}
+				}
+				if !racy && g.r.Chance(1, 2) {
 					// through the real Miner.truncateForMiner
 					if g.emit(fmt.Sprintf("mtruncate %d", tgt)) == "ok" {
 						for b := range g.confirmed {
